@@ -14,29 +14,49 @@ import struct as _struct
 INF = None
 
 
-class Sym:
-    __slots__ = ('op', 'args', '_h')
+_INTERN = {}
+_UID = [0]
 
-    def __init__(self, op, *args):
-        self.op = op
-        self.args = args
-        self._h = hash((op, args))
+
+class Sym:
+    """Interned (hash-consed) term: structural equality is identity."""
+    __slots__ = ('op', 'args', 'uid', '__weakref__')
+
+    def __new__(cls, op, *args):
+        k = (op, args)
+        try:
+            s = _INTERN.get(k)
+        except TypeError:
+            raise TypeError('unhashable term argument in %s%r' % (op, args))
+        if s is None:
+            s = object.__new__(cls)
+            s.op = op
+            s.args = args
+            _UID[0] += 1
+            s.uid = _UID[0]
+            _INTERN[k] = s
+        return s
 
     def __eq__(self, other):
-        return isinstance(other, Sym) and self._h == other._h and \
-            self.op == other.op and self.args == other.args
+        return self is other
 
     def __ne__(self, other):
-        return not self.__eq__(other)
+        return self is not other
 
     def __hash__(self):
-        return self._h
+        return self.uid
 
     def __repr__(self):
         return show(self)
 
     def __bool__(self):
         raise TypeError('truth value of a symbolic term: ' + show(self))
+
+    def __deepcopy__(self, memo):
+        return self
+
+    def __reduce__(self):
+        return (Sym, (self.op,) + self.args)
 
 
 class Ref:
@@ -72,33 +92,43 @@ def is_const(x):
     return False
 
 
-def show(x, depth=0):
+def show(x, depth=0, budget=None):
+    if budget is None:
+        budget = [4000]
+    if budget[0] <= 0:
+        return '…'
     if isinstance(x, Sym):
-        if depth > 8:
+        budget[0] -= len(x.op) + 2
+        if depth > 10:
             return x.op + '(…)'
         if x.op == 'lin':
             c, terms = x.args
             parts = []
             for t, k in terms:
-                s = show(t, depth + 1)
-                parts.append(s if k == 1 else '%d*%s' % (k, s))
+                sx = show(t, depth + 1, budget)
+                parts.append(sx if k == 1 else '%d*%s' % (k, sx))
             if c or not parts:
                 parts.append(str(c))
             return '(' + ' + '.join(parts) + ')'
         if x.op in ('param', 'field', 'var'):
             return '%s:%s' % (x.op, x.args[0])
-        return '%s(%s)' % (x.op, ', '.join(show(a, depth + 1)
+        return '%s(%s)' % (x.op, ', '.join(show(a, depth + 1, budget)
                                            for a in x.args))
     if isinstance(x, tuple):
-        return '(' + ', '.join(show(a, depth + 1) for a in x) + ')'
+        return '(' + ', '.join(show(a, depth + 1, budget) for a in x) + ')'
     if hasattr(x, 'qualname'):
-        return '<' + x.qualname + '>'
-    return repr(x)
+        r = '<' + x.qualname + '>'
+    else:
+        r = repr(x)
+    budget[0] -= len(r)
+    return r
 
 
 def key(x):
-    """Deterministic sort key for terms."""
-    return show(x)
+    """Deterministic sort key for terms (creation order of interned terms)."""
+    if isinstance(x, Sym):
+        return (1, x.uid)
+    return (0, repr(x))
 
 
 # ---------------------------------------------------------------------------
@@ -360,6 +390,16 @@ def slice_(base, lo, hi, kn=None):
             if h0 is None:
                 nh = None if hi is None else add(l0, hi)
                 return _mk_slice(b0, add(l0, lo), nh)
+            if nonneg(h0, kn):
+                if hi is None:
+                    return _mk_slice(b0, add(l0, lo), h0)
+                cand = add(l0, hi)
+                d = sub(cand, h0)
+                iv = kn.lin_interval(d) if kn is not None else interval(d)
+                if iv[1] is not None and iv[1] <= 0:
+                    return _mk_slice(b0, add(l0, lo), cand)
+                if iv[0] is not None and iv[0] >= 0:
+                    return _mk_slice(b0, add(l0, lo), h0)
     if lo == 0 and hi is None:
         return base
     return _mk_slice(base, lo, hi)
@@ -442,6 +482,16 @@ def typeof(x):
         return None
     if op == 'float':
         return {'float'}
+    if op == 'dynsel':
+        ts = set()
+        for _k, alt in x.args[2]:
+            t = typeof(alt)
+            if t is None:
+                return None
+            ts |= t
+        return ts
+    if op == 'decval':
+        return set(x.args[2]) if len(x.args) > 2 and x.args[2] else None
     return None
 
 
@@ -579,6 +629,23 @@ def cond(g, a, b):
 def _raw_cond(g, a, b):
     if _same(a, b):
         return a
+    if isinstance(g, Sym) and g.op == 'ne' and _same(g.args[0], a) and \
+            _same(g.args[1], b):
+        return a
+    if isinstance(g, Sym) and g.op == 'eq' and _same(g.args[0], b) and \
+            _same(g.args[1], a):
+        return b
+    if isinstance(a, Sym) and isinstance(b, Sym) and a.op == 'slice' and \
+            b.op == 'slice' and _same(a.args[0], b.args[0]) and \
+            _same(a.args[2], b.args[2]):
+        return _mk_slice(a.args[0], cond(g, a.args[1], b.args[1]),
+                         a.args[2])
+    if isinstance(a, Sym) and a.op == 'slice' and a.args[2] is None and \
+            _same(a.args[0], b):
+        return _mk_slice(b, cond(g, a.args[1], 0), None)
+    if isinstance(b, Sym) and b.op == 'slice' and b.args[2] is None and \
+            _same(b.args[0], a):
+        return _mk_slice(a, cond(g, 0, b.args[1]), None)
     if isinstance(g, Sym) and g.op == 'not':
         return Sym('cond', g.args[0], b, a)
     return Sym('cond', g, a, b)
@@ -586,7 +653,7 @@ def _raw_cond(g, a, b):
 
 def _same(a, b):
     if isinstance(a, Sym) or isinstance(b, Sym):
-        return isinstance(a, Sym) and isinstance(b, Sym) and a == b
+        return a is b
     if type(a) is not type(b):
         return False
     return a == b
@@ -865,6 +932,12 @@ def _interval_struct(x, kn):
         return (None, None)
     if op == 'ord':
         return (0, 0x10FFFF)
+    if op == 'dynsel':
+        iv = None
+        for _k, alt in x.args[2]:
+            a = interval(alt, kn)
+            iv = a if iv is None else _iv_union(iv, a)
+        return iv or (None, None)
     return (None, None)
 
 
@@ -886,6 +959,7 @@ class Knowledge:
             self.known = set(other.known)
             self.bounds = dict(other.bounds)
             self.ineqs = list(other.ineqs)
+        self._isets = None
 
     def copy(self):
         return Knowledge(self)
@@ -1075,6 +1149,35 @@ class Knowledge:
             return None
         return None
 
+    def decide_fast(self, atom):
+        """Atom lookup and constant structure only (no linear reasoning)."""
+        if not isinstance(atom, Sym):
+            return None
+        if atom in self.known:
+            return True
+        n = not_(atom)
+        if isinstance(n, Sym) and n in self.known:
+            return False
+        if atom.op == 'and':
+            res = True
+            for a in atom.args:
+                d = self.decide_fast(a)
+                if d is False:
+                    return False
+                if d is None:
+                    res = None
+            return res
+        if atom.op == 'or':
+            res = False
+            for a in atom.args:
+                d = self.decide_fast(a)
+                if d is True:
+                    return True
+                if d is None:
+                    res = None
+            return res
+        return None
+
     def _decide_cmp(self, op, a, b):
         if not ((_intlike(a) or isinstance(a, Sym) and a in self.bounds) and
                 (_intlike(b) or isinstance(b, Sym) and b in self.bounds)):
@@ -1119,42 +1222,52 @@ class Knowledge:
 
     def lin_interval(self, d):
         """Interval of a linear term using bounds and, to depth two, the
-        known linear inequalities (d = F + R with F <= 0 known)."""
+        known linear inequalities (d = F + R with F <= 0 known).  Only
+        inequalities sharing a term with d are tried."""
         iv = interval(d, self)
         best_lo, best_hi = iv
-        if isinstance(d, int):
+        if isinstance(d, int) or not self.ineqs:
             return iv
-        cands = [(1, f) for f in self.ineqs] + [(-1, f) for f in self.ineqs]
-        # upper bound: d = F + R, F<=0  =>  d <= hi(R)
-        for f in self.ineqs:
-            r = sub(d, f)
-            hi = interval(r, self)[1]
-            if hi is not None and (best_hi is None or hi < best_hi):
-                best_hi = hi
-            if hi is None:
-                for f2 in self.ineqs:
-                    if f2 is f:
-                        continue
-                    hi2 = interval(sub(r, f2), self)[1]
-                    if hi2 is not None and (best_hi is None or
-                                            hi2 < best_hi):
-                        best_hi = hi2
-        # lower bound: -d = F + R  =>  -d <= hi(R)  =>  d >= -hi(R)
+        if best_lo is not None and best_hi is not None:
+            return iv
+
+        def tset(x):
+            p = _lin_parts(x)
+            return set(p[1]) if p else set()
+
+        isets = getattr(self, '_isets', None)
+        if isets is None or len(isets) != len(self.ineqs):
+            isets = self._isets = [tset(f) for f in self.ineqs]
+        dts = tset(d)
         nd = neg(d)
-        for f in self.ineqs:
-            r = sub(nd, f)
-            hi = interval(r, self)[1]
-            if hi is not None and (best_lo is None or -hi > best_lo):
-                best_lo = -hi
-            if hi is None:
-                for f2 in self.ineqs:
-                    if f2 is f:
+        for sign, target in ((1, d), (-1, nd)):
+            if sign == 1 and best_hi is not None:
+                continue
+            if sign == -1 and best_lo is not None:
+                continue
+            best = None
+            for i, f in enumerate(self.ineqs):
+                if not (isets[i] & dts):
+                    continue
+                r = sub(target, f)
+                hi = interval(r, self)[1]
+                if hi is not None:
+                    if best is None or hi < best:
+                        best = hi
+                    continue
+                rts = tset(r)
+                for j, f2 in enumerate(self.ineqs):
+                    if j == i or not (isets[j] & rts):
                         continue
                     hi2 = interval(sub(r, f2), self)[1]
-                    if hi2 is not None and (best_lo is None or
-                                            -hi2 > best_lo):
-                        best_lo = -hi2
-        del cands
+                    if hi2 is not None and (best is None or hi2 < best):
+                        best = hi2
+            if best is not None:
+                if sign == 1:
+                    best_hi = best if best_hi is None else min(best_hi, best)
+                else:
+                    best_lo = -best if best_lo is None else max(best_lo,
+                                                                 -best)
         return (best_lo, best_hi)
 
     def lower_bound(self, term):
@@ -1179,6 +1292,14 @@ def rebuild(op, args):
         return r
     if op == 'concat':
         return concat(*args)
+    if op == 'add':
+        return add(*args)
+    if op == 'sub':
+        return sub(*args)
+    if op == 'mul':
+        return mul(*args)
+    if op == 'neg':
+        return neg(args[0])
     if op == 'cond':
         return cond(*args)
     if op == 'and':
@@ -1220,66 +1341,112 @@ def index(base, i):
     return Sym('index', base, i)
 
 
-def subst(x, mapping):
+def subst(x, mapping, memo=None):
     """Replace sub-terms (keys of mapping) bottom-up and re-simplify."""
+    if memo is None:
+        memo = {}
     if isinstance(x, Sym):
         if x in mapping:
             return mapping[x]
+        if x in memo:
+            return memo[x]
         if x.op == 'lin':
             c, terms = x.args
             r = c
             changed = False
             for t, k in terms:
-                nt = subst(t, mapping)
+                nt = subst(t, mapping, memo)
                 if nt is not t:
                     changed = True
                 r = add(r, mul(k, nt))
-            return r if changed else x
-        new = tuple(subst(a, mapping) for a in x.args)
-        if all(n is o for n, o in zip(new, x.args)):
-            return x
-        return rebuild(x.op, new)
+            res = r if changed else x
+        else:
+            new = tuple(subst(a, mapping, memo) for a in x.args)
+            if all(n is o for n, o in zip(new, x.args)):
+                res = x
+            else:
+                res = rebuild(x.op, new)
+        memo[x] = res
+        return res
     if isinstance(x, tuple):
-        new = tuple(subst(a, mapping) for a in x)
+        new = tuple(subst(a, mapping, memo) for a in x)
         if all(n is o for n, o in zip(new, x)):
             return x
         return new
     return x
 
 
-def simplify(x, kn: Knowledge):
+def simplify(x, kn, memo=None):
     """Resolve conds / boolean sub-terms that the knowledge decides."""
+    if memo is None:
+        memo = {}
     if isinstance(x, Sym):
-        if x.op == 'cond':
-            d = kn.decide(x.args[0])
-            if d is True:
-                return simplify(x.args[1], kn)
-            if d is False:
-                return simplify(x.args[2], kn)
-        if x.op in BOOL_OPS:
-            d = kn.decide(x)
-            if d is not None:
-                return d
-        if x.op == 'lin':
-            c, terms = x.args
-            r = c
-            changed = False
-            for t, k in terms:
-                nt = simplify(t, kn)
-                if nt is not t:
-                    changed = True
-                r = add(r, mul(k, nt))
-            return r if changed else x
-        new = tuple(simplify(a, kn) for a in x.args)
-        if all(n is o for n, o in zip(new, x.args)):
+        if x in memo:
+            return memo[x]
+        res = None
+        if not has_choice(x):
+            memo[x] = x
             return x
-        return rebuild(x.op, new)
+        if x.op == 'cond':
+            d = kn.decide_fast(x.args[0])
+            if d is True:
+                res = simplify(x.args[1], kn, memo)
+            elif d is False:
+                res = simplify(x.args[2], kn, memo)
+        if res is None and x.op in BOOL_OPS and x.op not in ('ok',):
+            d = kn.decide_fast(x)
+            if d is not None:
+                res = d
+        if res is None:
+            if x.op == 'lin':
+                c, terms = x.args
+                r = c
+                changed = False
+                for t, k in terms:
+                    nt = simplify(t, kn, memo)
+                    if nt is not t:
+                        changed = True
+                    r = add(r, mul(k, nt))
+                res = r if changed else x
+            elif x.op in ('consumed', 'decval', 'typed', 'param', 'field',
+                          'loopvar', 'global'):
+                res = x
+            else:
+                new = tuple(simplify(a, kn, memo) for a in x.args)
+                if all(n is o for n, o in zip(new, x.args)):
+                    res = x
+                else:
+                    res = rebuild(x.op, new)
+        memo[x] = res
+        return res
     if isinstance(x, tuple):
-        new = tuple(simplify(a, kn) for a in x)
+        new = tuple(simplify(a, kn, memo) for a in x)
         if all(n is o for n, o in zip(new, x)):
             return x
         return new
     return x
+
+
+_CHOICE = {}
+
+
+def has_choice(x):
+    """Does the term contain a cond or a boolean sub-term (anything simplify
+    could resolve)?  Cached per interned term."""
+    if not isinstance(x, Sym):
+        if isinstance(x, tuple):
+            return any(has_choice(a) for a in x)
+        return False
+    r = _CHOICE.get(x.uid)
+    if r is None:
+        if x.op == 'cond' or x.op in BOOL_OPS:
+            r = True
+        elif x.op == 'lin':
+            r = any(has_choice(t) for t, _ in x.args[1])
+        else:
+            r = any(has_choice(a) for a in x.args)
+        _CHOICE[x.uid] = r
+    return r
 
 
 def subterms(x):
